@@ -1,0 +1,36 @@
+//go:build verif
+
+package synchronization
+
+import (
+	"github.com/mutagen-io/mutagen/pkg/synchronization/core"
+)
+
+// Verification hook (add-only, build tag verif): lets the /verif harness put
+// conflict and problem lists into the in-memory state of a (paused) session so
+// that the sorting / truncation block of Manager.List can be observed through
+// Manager.List itself. It touches nothing unless called and is not compiled
+// without the tag; no existing behaviour is added to or modified.
+
+// VerifSetListState replaces the conflict list and the four problem lists of
+// the session with the given identifier. It reports whether the session exists.
+func (m *Manager) VerifSetListState(
+	id string,
+	conflicts []*core.Conflict,
+	alphaScan, alphaTransition, betaScan, betaTransition []*core.Problem,
+) bool {
+	m.sessionsLock.Lock()
+	c, ok := m.sessions[id]
+	m.sessionsLock.UnlockWithoutNotify()
+	if !ok {
+		return false
+	}
+	c.stateLock.Lock()
+	c.state.Conflicts = conflicts
+	c.state.AlphaState.ScanProblems = alphaScan
+	c.state.AlphaState.TransitionProblems = alphaTransition
+	c.state.BetaState.ScanProblems = betaScan
+	c.state.BetaState.TransitionProblems = betaTransition
+	c.stateLock.Unlock()
+	return true
+}
